@@ -7,6 +7,7 @@ recorded list with no PRNG involved.
 """
 
 import hashlib
+import os
 import json
 import random
 import urllib.parse
@@ -122,14 +123,14 @@ DEFAULT_WEIGHTS = {
 }
 
 PROP_WEIGHTS = {
-    "C01": {},
+    "C01": {"put_revert": 3},
     "C02": {"partial": 3, "get": 3, "propfind": 3, "multiget": 3, "query": 2, "sync": 2, "proppatch": 4, "put_over": 12},
     "C03": {"put_cond": 14, "delete_cond": 8, "get_cond": 6, "put_over": 10, "post": 1, "mkcol": 0.5, "mkcalendar": 0.5},
     "C06": {"put_recreate": 6, "put_uidclash": 10, "put_over": 10, "put_new": 10, "delete": 7, "restart": 2, "evict": 3, "mkcol": 0.3, "proppatch": 0.5},
-    "C07": {"sync": 16, "put_same": 3, "put_revert": 4, "delete": 12, "put_new": 10, "put_over": 10, "mkcol": 0.3, "put_invalid": 0.5,
+    "C07": {"sync": 16, "put_copy": 4, "put_same": 3, "put_revert": 4, "delete": 12, "put_new": 10, "put_over": 10, "mkcol": 0.3, "put_invalid": 0.5,
             "propfind": 0.3, "get": 0.3, "multiget": 0.3, "query": 0.3, "proppatch": 1, "post": 2},
     "C08": {"put_same": 3, "put_revert": 5, "delete": 8, "put_invalid": 3, "put_cond": 4, "get": 2, "propfind": 2},
-    "C09": {"put_same": 4, "put_revert": 3, "proppatch": 6, "delete": 6, "put_invalid": 2, "put_cond": 3, "clock": 3},
+    "C09": {"put_mismatch": 2, "put_same": 4, "put_revert": 3, "proppatch": 6, "delete": 6, "put_invalid": 2, "put_cond": 3, "clock": 3},
     "C14": {"partial": 4, "put_invalid": 10, "reupload": 10, "put_new": 10, "put_over": 6, "restart": 2},
     "C15": {"proppatch": 20, "mkcol": 4, "mkcalendar": 4, "restart": 4, "evict": 3, "put_new": 3, "put_over": 1, "delete": 1, "post": 0.5},
     "C16": {"put_new": 12, "post": 5, "propfind": 8, "mkcol": 3, "mkcalendar": 3, "delete": 3, "proppatch": 3, "put_invalid": 2},
@@ -154,7 +155,7 @@ def make_config(prop, seed, tier):
         "faults": r.random() < 0.75,  # restarts / evictions / clock / chunking enabled
         "steps": r.randint(8, 25) if tier == "quick" else r.randint(10, 60),
         # separate configuration (DESIGN.md 2.3(4)): injected ENOSPC/EIO inside write requests
-        "io_faults": prop in ("C01", "C02", "C08", "C15", "C16") and r.random() < 0.3,
+        "io_faults": prop in ("C01", "C02", "C07", "C08", "C15", "C16") and r.random() < 0.3,
         # file mtimes follow the simulated clock, which only moves on clock ops: every
         # write between two of them carries the same timestamp
         "sim_mtime": r.random() < 0.5,
@@ -455,6 +456,8 @@ class HistRun:
             ext = r.choice([".ics", ".vcf", ".txt", ".txt", ""])
         for _ in range(20):
             base = gen.member_base(r, self.names_mode)
+            if self.prop in ("C07", "C08") and r.random() < 0.08:
+                base = r.choice([".dot", ".hid.den"])
             if r.random() < 0.3:
                 base += str(r.randint(0, 9))
             n = base + ext
@@ -521,6 +524,28 @@ class HistRun:
                 self.queue = [follow]
                 return {"op": "report", "report": "partial", "coll": c.path, "kind": r.choice(["multiget", "query"]), "mode": "expand" if (rec and r.random() < 0.7) else r.choice(["props", "expand"]),
                         "names": [n], "salt": r.getrandbits(32)}
+        if self.prop == "C14" and r.random() < 0.07:
+            # bytes the repository already knows as a plain file are not therefore a calendar object
+            cands = [(c, n) for c in self.store_colls(("calendar",)) for n, mm in sorted(c.members.items()) if mm.served and n.endswith(".ics")]
+            if cands:
+                c, n = r.choice(cands)
+                self.fresh += 1
+                junk = ("meeting notes %d\nnot a calendar\n" % self.fresh).encode()
+                self.queue = [{"op": "put", "coll": c.path, "name": n, "body": b2s(junk), "ctype": "text/calendar", "invalid": "text"}]
+                return {"op": "put", "coll": c.path, "name": "notes%d.txt" % self.fresh, "body": b2s(junk), "ctype": "text/plain", "salt": r.getrandbits(32)}
+        if self.prop == "C07" and r.random() < 0.08:
+            # a member, a token, then the same bytes under the adjacent name, then a sync from that token
+            c = self.pick_coll(("addressbook", "plain", "calendar"))
+            self.fresh += 1
+            if c.kind == "addressbook":
+                ext, body, ct = ".vcf", gen.vcf(r, uid=None), "text/vcard"
+            else:
+                ext, body, ct = ".txt", gen.opaque(r) or b"x", "text/plain"
+            n1, n2 = "tw%d%s" % (self.fresh, ext), "tw%d0%s" % (self.fresh, ext)
+            self.queue = [{"op": "report", "report": "sync", "coll": c.path, "token": {"record": True}},
+                          {"op": "put", "coll": c.path, "name": n2, "body": b2s(body), "ctype": ct},
+                          {"op": "report", "report": "sync", "coll": c.path, "token": {"issued": 10 ** 6}}]
+            return {"op": "put", "coll": c.path, "name": n1, "body": b2s(body), "ctype": ct, "salt": r.getrandbits(32)}
         if self.prop == "C06" and r.random() < 0.08:
             # a member is deleted and comes back byte-identical; its UID must be taken again
             cands = [(c, n) for c in self.store_colls(("calendar",)) for n, mm in sorted(c.members.items()) if mm.uid and mm.served and n.endswith(".ics")]
@@ -543,7 +568,15 @@ class HistRun:
                 if self.cfg.get("faults", True) and self.cfg.get("frontend") == "aiohttp" and op["op"] in ("put", "post", "proppatch", "report", "propfind", "mkcol", "mkcalendar") and self.frng.random() < 0.3:
                     n = self.frng.randint(1, 4)
                     op["chunks"] = [self.frng.randint(1, 200) for _ in range(n)]
-                if self.cfg.get("io_faults") and op["op"] in ("get", "head", "propfind", "report") and self.io_armed < 3 and self.frng.random() < 0.15:
+                if self.cfg.get("io_faults") and self.prop == "C07" and op["op"] == "report" and op.get("report") == "sync" and "issued" in (op.get("token") or {}) and self.io_armed < 4 and self.frng.random() < 0.5:
+                    # (the one read that matters there is the old tree named by the token)
+                    op["fault_sweep"] = 60
+                    self.io_armed += 1
+                elif self.cfg.get("io_faults") and op["op"] in ("get", "head", "propfind", "report") and self.ops and self.ops[-1]["op"] in ("restart", "evict", "delete") and self.io_armed < 6 and self.frng.random() < 0.6:
+                    # the first read after a restart / cache eviction opens the stores again
+                    op["read_fault"] = {"after": self.frng.randint(1, 25), "errno": self.frng.choice(["EIO", "EMFILE"])}
+                    self.io_armed += 1
+                elif self.cfg.get("io_faults") and op["op"] in ("get", "head", "propfind", "report") and self.io_armed < 3 and self.frng.random() < 0.15:
                     op["read_fault"] = {"after": self.frng.randint(1, 30), "errno": self.frng.choice(["EIO", "EMFILE"])}
                     self.io_armed += 1
                 # (C15 pins values per acknowledged instruction: the known partial application of a
@@ -565,7 +598,34 @@ class HistRun:
             if name.endswith(".ics") and r.random() < 0.08:
                 uid = "<none>"
             body, ct = self.body_for(name, uid)
+            if self.prop in ("C02", "C17") and name.endswith(".ics") and uid is None and r.random() < 0.12:
+                # `curl -T x.ics`: no calendar media type, so the bytes are stored as they are (not
+                # re-serialised); every view must still serve those bytes under that etag
+                ct = r.choice(["application/octet-stream", "application/octet-stream", "text/plain"])
             return {"op": "put", "coll": c.path, "name": name, "body": b2s(body), "ctype": ct}
+        if k == "put_copy":
+            # the same bytes under a second, adjacent name (contacts without UID, plain files)
+            cands = [(c, n) for c in self.store_colls() for n, mm in sorted(c.members.items())
+                     if mm.served and not n.endswith(".ics") and (not n.endswith(".vcf") or icalparse.first_uid(mm.served) is None)]
+            if not cands:
+                c = self.pick_coll(("addressbook",))
+                if c.kind != "addressbook":
+                    return None
+                name = self.new_name(c)
+                if not name.endswith(".vcf"):
+                    return None
+                return {"op": "put", "coll": c.path, "name": name, "body": b2s(gen.vcf(r, uid=None)), "ctype": "text/vcard"}
+            c, n = r.choice(cands)
+            base, dot, ext = n.rpartition(".")
+            twin = (base + "0." + ext) if dot else n + "0"
+            if twin in c.members:
+                return None
+            return {"op": "put", "coll": c.path, "name": twin, "body": b2s(c.members[n].served), "ctype": c.members[n].req_ctype or "application/octet-stream"}
+        if k == "put_mismatch":
+            # a calendar-looking name uploaded as plain text: stored as an opaque file
+            c = self.pick_coll(("calendar",))
+            self.fresh += 1
+            return {"op": "put", "coll": c.path, "name": "notes%d.ics" % self.fresh, "body": b2s(("just some notes %d\n" % self.fresh).encode()), "ctype": "text/plain"}
         if k == "put_uidclash":
             c = self.pick_coll(("calendar",))
             uid = r.choice(self.uid_pool)
@@ -863,7 +923,17 @@ class HistRun:
             elif k == "dup" and out:
                 out.append(dict(r.choice(out)))
             elif k == "variant" and names:
-                out.append({"rel": c.path + r.choice(names), "enc": r.choice(["full", "lower", "plain", "dslash", "dotseg"])})
+                special = [n for n in names if any(ch in n for ch in ";,=+&@:'()")]
+                if special and r.random() < 0.5:
+                    # sub-delimiters sent literally, as RFC 3986 allows inside a path segment
+                    out.append({"rel": c.path + r.choice(special), "enc": "subdelims"})
+                    if r.random() < 0.5:
+                        # and a never-existing name that differs from a member only behind a ';'
+                        plain = [n for n in names if not any(ch in n for ch in ";,=+&@:'()% #?")]
+                        if plain:
+                            out.append({"rel": c.path + r.choice(plain) + ";v=2", "enc": "subdelims"})
+                else:
+                    out.append({"rel": c.path + r.choice(names), "enc": r.choice(["full", "lower", "plain", "dslash", "dotseg"])})
             elif k == "abs" and names:
                 out.append({"rel": c.path + r.choice(names), "abs": True})
             elif k == "other":
@@ -1291,6 +1361,8 @@ class HistRun:
         elif enc == "lower":
             t = self.world.target(rel)
             t = "".join(ch.lower() if i > 0 and t[i - 1] == "%" or (i > 1 and t[i - 2] == "%") else ch for i, ch in enumerate(t))
+        elif enc == "subdelims":
+            t = self.world.prefix.rstrip("/") + urllib.parse.quote(rel, safe="/;,=+&@:'()!*$")
         elif enc in ("dslash", "dotseg"):
             # another spelling of the same path: a doubled slash or a "." segment before the last segment
             head, _, last = rel.rpartition("/")
@@ -1346,6 +1418,28 @@ class HistRun:
             ctx["token_text"] = text
             r = self.world.req("REPORT", coll, [dav.XML_CT], dav.sync_body(text), **self.delivery(op))
             ctx.update(resp=r)
+            if op.get("fault_sweep") and ctx["tokinfo"] is not None and not ctx["tokinfo"].get("never"):
+                # fault enumeration inside one read-only request: the same report again with a read
+                # error at its 1st, 2nd, ... file-system event; each answer is judged on its own
+                import errno as _errno
+
+                from . import hist_oracles
+
+                for k in range(1, int(op["fault_sweep"]) + 1):
+                    FS.err_fired = []
+                    ev0 = FS.ev_seq
+                    FS.read_err_at = {ev0 + k: _errno.EIO}
+                    rk = self.world.req("REPORT", coll, [dav.XML_CT], dav.sync_body(text))
+                    FS.read_err_at = {}
+                    if not FS.err_fired:
+                        if FS.ev_seq - ev0 < k:
+                            break  # past the end of the request
+                        continue
+                    if os.environ.get("XSIM_DEBUG_SWEEP"):
+                        print("sweep", k, FS.err_fired[0][:2], rk.status if rk is not None else None, (rk.body or b"")[-260:] if rk is not None else None)
+                    FS.err_fired = []
+                    self.count("fault.read_error_eio")
+                    hist_oracles.c07(self, op, dict(ctx, resp=rk, status=rk.status if rk is not None else None, read_fault=True, io_fault=True), self.obs)
         ctx["status"] = r.status if r is not None else None
         return ctx
 
